@@ -32,8 +32,11 @@ Record quirks := {
   (* confirmed deviations of the GENERATED code (effective for engine Gen only) *)
   qg_tuple_missing : bool;     (* tuple ReprAssembler.Finish has no required-field check: missing fields keep Go zero values *)
   qg_nullable_kinded_null : bool; (* kinded union ReprAssembler.AssignNull refuses null even in a nullable slot *)
-  qg_stringprefix_split : bool (* stringprefix fromString uses SplitN(v, delim, 2); the DSL compiler sets delim = "":
+  qg_stringprefix_split : bool; (* stringprefix fromString uses SplitN(v, delim, 2); the DSL compiler sets delim = "":
                                   the string is cut after its first character instead of after the prefix *)
+  qg_map_kv_dup : bool         (* typed map, key+value path (AssembleKey/AssembleValue): keyFinishTidy has no
+                                  repeated-key check (AssembleEntry has); the driver enables this switch for the
+                                  key+value route only *)
 }.
 
 Definition pinned : quirks :=
@@ -42,7 +45,7 @@ Definition pinned : quirks :=
      q_listpairs_unknown_panic := true; q_listpairs_iter_index := true; q_enum_name_alias := true;
      q_enum_type_unchecked := true; q_kinded_enum_kind := true; q_kinded_len := true;
      q_nullable_sum_panic := true; q_int_narrow := true; q_union_any := true;
-     qg_tuple_missing := true; qg_nullable_kinded_null := true; qg_stringprefix_split := true |}.
+     qg_tuple_missing := true; qg_nullable_kinded_null := true; qg_stringprefix_split := true; qg_map_kv_dup := true |}.
 
 Definition qoff : quirks :=
   {| q_dup_field := false; q_dup_mapkey := false; q_union_two := false; q_rename_alias := false;
@@ -50,7 +53,7 @@ Definition qoff : quirks :=
      q_listpairs_unknown_panic := false; q_listpairs_iter_index := false; q_enum_name_alias := false;
      q_enum_type_unchecked := false; q_kinded_enum_kind := false; q_kinded_len := false;
      q_nullable_sum_panic := false; q_int_narrow := false; q_union_any := false;
-     qg_tuple_missing := false; qg_nullable_kinded_null := false; qg_stringprefix_split := false |}.
+     qg_tuple_missing := false; qg_nullable_kinded_null := false; qg_stringprefix_split := false; qg_map_kv_dup := false |}.
 
 Inductive errc := EKind | ENull | EMissing | EUnknown | EDup | EUnion | EEnum | ELen | ERange | EFuel.
 
@@ -247,6 +250,8 @@ Section Engine.
         if on q_dup_mapkey then
           bbind (b_maybe nul el (snd kv)) (fun v =>
           BOk (map (fun x => if bytes_eqb (fst x) (fst kv) then (fst x, v) else x) st ++ [(fst kv, v)]))
+        else if ong qg_map_kv_dup then
+          bbind (b_maybe nul el (snd kv)) (fun v => BOk (st ++ [(fst kv, v)]))
         else BErr EDup
       else bbind (b_maybe nul el (snd kv)) (fun v => BOk (st ++ [(fst kv, v)])).
 
